@@ -182,7 +182,7 @@ def explorers(tier, seed):
                                         if mode == "path" and alpha in (0.0, 5.0) and gi % 3 != 0:
                                             continue
                                     cases.append((name, gemini, alpha, Mc, groups, bs, dynamic, mode, seed))
-    return [Explorer("sparse_monitor", "props.c06", "sparse_case", cases, chunk=4, floor=200, case_timeout=600,
+    return [Explorer("sparse_monitor", "props.c06", "sparse_case", cases, chunk=4, floor=50, case_timeout=600,
                      require={"rows_shrunk_not_killed": 500, "ends_with_some_features_dead": 50},
                      rule="5 sparse estimators x GEMINIs x alpha {0,0.05,0.5,5} x M {0.5,10} x {None, ALL 15 set partitions of 4 features, 4 partial "
                           "lists} x batch size x dynamic x {fit, path}; monitored after every optimiser step (shrinkage = reference prox with threshold "
